@@ -10,9 +10,13 @@ Inductive skind := StringBuf | FileBuf.
 Record istream := mkIstream {
   is_kind : skind;
   is_content : bytes;
+  is_len : N;              (* = lenN is_content, computed once when the stream is opened *)
   is_fail : bool;
   is_pos : N
 }.
+
+Definition open_istream (k : skind) (content : bytes) : istream :=
+  mkIstream k content (lenN content) false 0.
 
 Definition to_signed64 (v : N) : Z :=
   let v := v mod 2 ^ 64 in
@@ -24,18 +28,18 @@ Definition of_signed64 (z : Z) : N := Z.to_N (z mod 2 ^ 64)%Z.
    position beyond the end, sets failbit *)
 Definition seekg (s : istream) (p : Z) : istream :=
   if is_fail s then s
-  else if (p <? 0)%Z then mkIstream (is_kind s) (is_content s) true (is_pos s)
+  else if (p <? 0)%Z then mkIstream (is_kind s) (is_content s) (is_len s) true (is_pos s)
   else
     let p := Z.to_N p in
     match is_kind s with
-    | StringBuf => if lenN (is_content s) <? p
-                   then mkIstream (is_kind s) (is_content s) true (is_pos s)
-                   else mkIstream (is_kind s) (is_content s) false p
-    | FileBuf => mkIstream (is_kind s) (is_content s) false p
+    | StringBuf => if is_len s <? p
+                   then mkIstream (is_kind s) (is_content s) (is_len s) true (is_pos s)
+                   else mkIstream (is_kind s) (is_content s) (is_len s) false p
+    | FileBuf => mkIstream (is_kind s) (is_content s) (is_len s) false p
     end.
 
 Definition seekg_end (s : istream) : istream :=
-  if is_fail s then s else mkIstream (is_kind s) (is_content s) false (lenN (is_content s)).
+  if is_fail s then s else mkIstream (is_kind s) (is_content s) (is_len s) false (is_len s).
 
 (* tellg as size_t( stream.tellg() ) *)
 Definition tellg_size (s : istream) : N :=
@@ -48,47 +52,107 @@ Definition read (s : istream) (n : N) : istream * bytes :=
   else
     let got := sliceN (is_content s) (is_pos s) n in
     if lenN got <? n
-    then (mkIstream (is_kind s) (is_content s) true (is_pos s + lenN got), got)
-    else (mkIstream (is_kind s) (is_content s) false (is_pos s + n), got).
+    then (mkIstream (is_kind s) (is_content s) (is_len s) true (is_pos s + lenN got), got)
+    else (mkIstream (is_kind s) (is_content s) (is_len s) false (is_pos s + n), got).
 
 (* ---- output ---- *)
+(* The stream content is kept as a sorted list of disjoint written pieces
+   (offset, length, bytes); everything between pieces below [os_len] is zero
+   padding (adjust_stream_size only ever pads with zeros).  [os_bytes] renders
+   the content. *)
+Definition piece := (N * N * bytes)%type.
+
 Record ostream := mkOstream {
-  os_bytes : bytes;
+  os_pieces : list piece;
+  os_len : N;             (* current length of the stream *)
   os_bad : bool;          (* !stream  (failbit or badbit) *)
   os_pos : N;
-  os_cap : option N       (* byte capacity of the sink; None = unlimited *)
+  os_cap : option N;      (* byte capacity of the sink; None = unlimited *)
+  os_abort : bool         (* a padding request of 2 GiB or more: std::string( size, 0 ) throws *)
 }.
 
-Definition new_ostream (cap : option N) : ostream := mkOstream [] false 0 cap.
+Definition new_ostream (cap : option N) : ostream := mkOstream [] 0 false 0 cap false.
+
+(* parts of the pieces lying strictly before [pos] *)
+Fixpoint cut_before (pos : N) (ps : list piece) : list piece :=
+  match ps with
+  | [] => []
+  | (o, l, d) :: rest =>
+      if o + l <=? pos then (o, l, d) :: cut_before pos rest
+      else if o <? pos then [(o, pos - o, firstnN d (pos - o))]
+      else []
+  end.
+
+(* parts lying at or after [endp] *)
+Fixpoint cut_after (endp : N) (ps : list piece) : list piece :=
+  match ps with
+  | [] => []
+  | (o, l, d) :: rest =>
+      if o + l <=? endp then cut_after endp rest
+      else if o <? endp then (endp, o + l - endp, skipnN d (endp - o)) :: rest
+      else (o, l, d) :: rest
+  end.
+
+Definition put_piece (pos : N) (bs : bytes) (ps : list piece) : list piece :=
+  let n := lenN bs in
+  if n =? 0 then ps else cut_before pos ps ++ [(pos, n, bs)] ++ cut_after (pos + n) ps.
+
+Fixpoint render (ps : list piece) (cur len : N) : bytes :=
+  match ps with
+  | [] => repeatN 0 (len - cur)
+  | (o, l, d) :: rest =>
+      if len <=? o then repeatN 0 (len - cur)
+      else repeatN 0 (o - cur) ++ firstnN d (len - o) ++ render rest (o + l) len
+  end.
+
+Definition os_bytes (s : ostream) : bytes := render (os_pieces s) 0 (os_len s).
 
 Definition seekp (s : ostream) (p : N) : ostream :=
-  if os_bad s then s else mkOstream (os_bytes s) false p (os_cap s).
+  if os_bad s then s else mkOstream (os_pieces s) (os_len s) false p (os_cap s) (os_abort s).
 Definition seekp_end (s : ostream) : ostream :=
-  if os_bad s then s else mkOstream (os_bytes s) false (lenN (os_bytes s)) (os_cap s).
+  if os_bad s then s else mkOstream (os_pieces s) (os_len s) false (os_len s) (os_cap s) (os_abort s).
 Definition tellp (s : ostream) : Z :=
   if os_bad s then (-1)%Z else Z.of_N (os_pos s).
 
-(* write n bytes at the current position (never beyond the current end + 0:
-   ELFIO always pads first); the sink accepts bytes while the total length
-   stays within the capacity *)
+(* write the bytes at the current position; the sink accepts bytes while the
+   stream length stays within the capacity, then fails *)
 Definition write (s : ostream) (bs : bytes) : ostream :=
-  if os_bad s then s
-  else if lenN bs =? 0 then s
+  if os_bad s || os_abort s then s
   else
-    let cur := os_bytes s in
-    let pos := os_pos s in
-    let full := firstnN cur pos ++ bs ++ skipnN cur (pos + lenN bs) in
+    let n := lenN bs in
+    if n =? 0 then s
+    else
+      let pos := os_pos s in
+      let new_len := N.max (os_len s) (pos + n) in
+      match os_cap s with
+      | None => mkOstream (put_piece pos bs (os_pieces s)) new_len false (pos + n) None (os_abort s)
+      | Some cap =>
+          if new_len <=? cap then
+            mkOstream (put_piece pos bs (os_pieces s)) new_len false (pos + n) (Some cap) (os_abort s)
+          else
+            let fit := firstnN bs (cap - pos) in
+            mkOstream (put_piece pos fit (os_pieces s)) (N.max (os_len s) (N.min cap (pos + n))) true
+                      (pos + n) (Some cap) (os_abort s)
+      end.
+
+(* zero padding up to [offset] (what writing std::string( size, 0 ) at the end does) *)
+Definition pad_to (s : ostream) (offset : N) : ostream :=
+  if os_bad s || os_abort s then s
+  else
     match os_cap s with
-    | None => mkOstream full false (pos + lenN bs) None
+    | None => mkOstream (os_pieces s) offset false offset None (os_abort s)
     | Some cap =>
-        if lenN full <=? cap then mkOstream full false (pos + lenN bs) (Some cap)
-        else mkOstream (firstnN full cap) true (pos + lenN bs) (Some cap)
+        if offset <=? cap then mkOstream (os_pieces s) offset false offset (Some cap) (os_abort s)
+        else mkOstream (os_pieces s) (N.max (os_len s) cap) true offset (Some cap) (os_abort s)
     end.
 
 (* adjust_stream_size( stream, offset ) — elfio_utils.hpp:313-321 *)
 Definition adjust_stream_size (s : ostream) (offset : N) : ostream :=
+  if os_abort s then s else
   let s1 := seekp_end s in
-  let s2 := if (tellp s1 <? Z.of_N offset)%Z
-            then write s1 (repeatN 0 (Z.to_N (Z.of_N offset - tellp s1)))
-            else s1 in
-  seekp s2 offset.
+  let pad := Z.to_N (Z.of_N offset - tellp s1) in
+  if (tellp s1 <? Z.of_N offset)%Z && (2147483648 <=? pad)
+  then mkOstream (os_pieces s) (os_len s) (os_bad s) (os_pos s) (os_cap s) true
+  else
+    let s2 := if (tellp s1 <? Z.of_N offset)%Z then pad_to s1 offset else s1 in
+    seekp s2 offset.
